@@ -7,7 +7,8 @@ mkdir -p /tmp/seeds_regress_verif; cp known_findings.json /tmp/seeds_regress_ver
 fail=0; n=0
 for d in seeded/${1:-}*/; do
   id=$(basename $d); prop=$(python3 -c "import json;print(json.load(open('$d/meta.json'))['breaks_property'])")
-  if ! git -C /repo apply --check /verif/$d/patch.diff 2>/dev/null; then
+  atbase=$(python3 -c "import json;print(json.load(open('$d/meta.json')).get('run_at_base',''))")
+  if [ -n "$atbase" ] || ! git -C /repo apply --check /verif/$d/patch.diff 2>/dev/null; then
     # the tree has moved on under this patch (a later fix: commit touched the same lines): run it on its base commit in a scratch worktree
     base=$(python3 -c "import json;print(json.load(open('$d/meta.json')).get('base_commit',''))")
     wt=/tmp/seeds_regress_wt; git -C /repo worktree remove --force $wt 2>/dev/null; git -C /repo worktree add -q --detach $wt $base || { echo "SKIP $id"; continue; }
